@@ -300,7 +300,7 @@ func execVals(p *Plan, st *RunStats) *Violation {
 	o.Kind = p.Cfg.Kind
 	if p.Cfg.Mode == "vals:custom-marshalers" {
 		if len(p.Ops) == 1 && len(p.Ops[0].A) == 1 {
-			safely(o, p.Ops[0], func() { o.cur = p.Ops[0]; customMarshalerProbe(o, p.Ops[0].A[0]); stringerKeyProbe(o, p.Ops[0].A[0]) })
+			safely(o, p.Ops[0], func() { o.cur = p.Ops[0]; customMarshalerProbe(o, p.Ops[0].A[0]); stringerKeyProbe(o, p.Ops[0].A[0]); keyTypesProbe(o, p.Ops[0].A[0]) })
 			st.Ops, st.NonTrivial = 1, true
 		}
 		st.Steps = stepCount - start
